@@ -7,9 +7,15 @@ pickups whose corrected start is exactly half-way between two divisions, and the
 note / rest arrays for all 8 combinations of maps (four entry points).  The theorems below are stated over those
 generated constants: editing a default, the rounding of the pickup rule or the column layout in the source
 regenerates a different table and they stop building.
+
+Round 6: `C10_ARG_SHAPES` - for each map and each kind of argument (number, 0-dimensional array, sequence) whether
+the live call answers with one row or an array of rows; `arg_shapes_from_source` ties the dispatch of
+Model/StepMapCalls.lean (in particular `Arg.isIterable`: the `isinstance(input, Iterable)` test of
+`metrical_position_map`) to it, `call_shapes` (Props/C10Calls.lean) extends it to every part and position.
 -/
 import PartituraModel.Proofs.C10Notes
 import PartituraModel.Props.C10Part
+import PartituraModel.Props.C10Calls
 
 namespace C10
 open Model Model.StepMap Gen
@@ -113,5 +119,34 @@ theorem column_by_name (e : NAEntry) (fl : NAFlags) (cols : List String) (h : na
 
 example : naColumns .noteList ⟨true, false, true⟩
     = some ["ks_fifths", "ks_mode", "is_downbeat", "rel_onset_div", "tot_measure_div"] := by decide
+
+/-! ### one row or an array of rows (round 6) -/
+
+/-- the translator's probe part: 3/4 at 4 divisions per quarter, two bars, one note on staff 1 -/
+def shapeProbe : PartD :=
+  { npoints := 3, span := some (0, 24), qd := [(0, 4)], ts := [⟨0, 3, 4, 3⟩], musical := false,
+    ms := [(0, 12, some 1), (12, 24, some 2)] }
+
+/-- the shapes the MODEL's calls give on the probe part, in the layout of `C10_ARG_SHAPES` -/
+def modelShapes : List (String × List (String × Bool)) :=
+  let kinds : List (String × Arg) := [("scalar", .scalar 5), ("zerod", .zerod 5), ("seq", .seq [5, 7])]
+  let row (f : Arg → Option Bool) : List (String × Bool) := kinds.filterMap fun k => (f k.2).map fun b => (k.1, b)
+  [("time_signature_map", row fun a => some (callTS shapeProbe.span shapeProbe.ts a).isOne),
+   ("key_signature_map", row fun a => some (callKS shapeProbe.span [] a).isOne),
+   ("clef_map", row fun a => (callClef shapeProbe.span [] [1] a).map Res.isOne),
+   ("measure_map", row fun a => (callMeasure shapeProbe a).map Res.isOne),
+   ("measure_number_map", row fun a => (callMeasureNumber shapeProbe a).map Res.isOne),
+   ("metrical_position_map", row fun a => (callMetrical shapeProbe a).map Res.isOne),
+   ("metrical_position_map/no_measures", row fun a => (callMetrical { shapeProbe with ms := [] } a).map Res.isOne)]
+
+/-- **`arg_shapes_from_source`**: for every map and every kind of argument the model's dispatch (scipy / the wrapper's
+    `np.ndim` test / the collator / the `Iterable` test and `np.column_stack`) answers with one row or an array
+    exactly as the live functions do - whole table, regenerated on every run -/
+theorem arg_shapes_from_source : C10_ARG_SHAPES = modelShapes := by decide +kernel
+
+/-- … and what the table says: a number and a 0-dimensional array give one row and a sequence an array, except that
+    `metrical_position_map` of a part with measures turns a 0-dimensional array into a one-row array -/
+theorem arg_shapes_spec : ∀ e ∈ C10_ARG_SHAPES,
+    e.2 = [("scalar", true), ("zerod", e.1 != "metrical_position_map"), ("seq", false)] := by decide +kernel
 
 end C10
